@@ -1,0 +1,28 @@
+//go:build verif
+
+package arg
+
+// Contracts for value conversion and argument expressions (C09, C18, C04, C13), checked by
+// /verif/bin/govc; comment-only.
+
+// kinds for which nil must become the typed zero value (property C09)
+//@ pure func nil_gets_typed_zero(k reflect.Kind) bool = k == reflect.Ptr || k == reflect.Interface || k == reflect.Slice || k == reflect.Map || k == reflect.Chan || k == reflect.Func
+
+// cast re-types a Value through unsafe (hack.Value layout): same data word, new type.
+//@ trusted func cast
+//@   props C09
+//@   pure
+//@   ensures retyped: rv_valid(result) && rv_type(result) == typ && rv_word(result) == rv_word(v) && rv_kind(result) == rt_kind(typ) && !rv_addressable(result)
+
+//@ func toValue
+//@   props C09 C13
+//@   requires type: out != nil
+//@   assigns varval
+//@   ensures only_the_fresh_box_is_written: forall a uintptr :: varval[a] == old(varval[a]) || (r != nil && result1 == nil && rt_kind(out) == reflect.Interface && a == rv_addr(result0))
+//@   ensures nil_is_typed_zero: r == nil && nil_gets_typed_zero(rt_kind(out)) ==> result1 == nil && rv_valid(result0) && rv_type(result0) == out && rv_iszero(result0)
+//@   ensures boxed_with_dynamic_type: r != nil && result1 == nil && rt_kind(out) == reflect.Interface ==> rv_valid(result0) && rv_type(result0) == out && rv_addressable(result0) && varval[rv_addr(result0)] == r
+//@   ensures standin_retyped: r != nil && result1 == nil && rt_of(typeof(r)) != out && (rt_kind(out) == reflect.Struct || rt_kind(out) == reflect.Ptr) ==> rv_type(result0) == out && rv_word(result0) == rv_word(value_of(r))
+//@   ensures other_size_rejected: r != nil && rt_kind(out) != reflect.Interface && rt_size(rt_of(typeof(r))) != rt_size(out) ==> result1 != nil
+//@   ensures same_type_unaltered: r != nil && result1 == nil && rt_of(typeof(r)) == out && rt_kind(out) != reflect.Interface ==> result0 == value_of(r)
+//@   panics_only_if rejected: (r == nil && !nil_gets_typed_zero(rt_kind(out)) && rt_kind(out) != reflect.Array) || (r != nil && (rt_of(typeof(r)) == rt_of(typeid(*iface.IContext)) || out == rt_of(typeid(*iface.IContext))))
+//@     | || (r != nil && rt_kind(out) == reflect.Interface && !rt_assignable(rt_of(typeof(r)), out))
